@@ -221,8 +221,14 @@ func (c *Ctx) ConfineCalls(rule, calleeGlob string, min int, allowed ...string) 
 		c.add("confine", rule, construct, Violated, badPos, fmt.Sprintf("%s is called outside its allowed callers %v: %s", calleeGlob, allowed, strings.Join(bad, "; ")))
 		return
 	}
+	if len(sites) == 0 && min > 0 {
+		c.add("confine", rule, construct, Undecided, "", fmt.Sprintf("no call site found, hand-confirmed minimum %d (vacuous or anchor moved)", min))
+		return
+	}
 	if len(sites) < min {
-		c.add("confine", rule, construct, Undecided, "", fmt.Sprintf("%d call site(s) found, hand-confirmed minimum %d (vacuous or anchor moved)", len(sites), min))
+		// fewer callers than when the table was written (a call site was removed or the callee inlined there):
+		// the confinement itself still holds and is not vacuous
+		c.add("confine", rule, construct, Held, "", fmt.Sprintf("%d call site(s) (the table was written with %d), all inside %v: %s", len(sites), min, allowed, countsString(where)))
 		return
 	}
 	c.add("confine", rule, construct, Held, "", fmt.Sprintf("%d call site(s), all inside %v: %s", len(sites), allowed, countsString(where)))
